@@ -70,6 +70,10 @@ MCInit ==
 
 On(m) == m \in Msgs
 
+\* parameter records a governance change may install (a configuration overrides this: ParamAlts <- ...)
+ParamAlts == {}
+ParamGate == TRUE    \* the simulator overrides this to make parameter changes rarer than messages
+
 \* argument sets: everything in exhaustive runs, one random element per evaluation in simulation
 Pick(S) == S
 
@@ -167,6 +171,12 @@ MsgStep ==
           /\ BankSend(a, b, n)
           /\ ev' = [name |-> "BankSend", ok |-> TRUE, signer |-> a, to |-> b, amount |-> n]
 
+ParamStep ==
+    On("SetParams") /\ ParamGate /\ \E p \in Pick(ParamAlts) :
+          /\ [p EXCEPT !.lax = params.lax] # params
+          /\ SetParams(p)
+          /\ ev' = [name |-> "SetParams", ok |-> TRUE, signer |-> "", params |-> p]
+
 BlockStep ==
     \/ BeginEndBlock /\ ev' = [name |-> "BeginEndBlock", ok |-> TRUE, signer |-> ""]
     \/ \E id \in DOMAIN ctx : ExpireBatch(id) /\ ev' = [name |-> "ExpireBatch", ok |-> TRUE, signer |-> "", id |-> id]
@@ -178,7 +188,7 @@ BlockStep ==
 PrepStep == WithPrep /\ PrepZeroHeight /\ ev' = [name |-> "PrepZeroHeight", ok |-> TRUE, signer |-> ""]
 
 MCNext == /\ ev.name # "PrepZeroHeight"
-          /\ (MsgStep \/ BlockStep \/ PrepStep)
+          /\ (MsgStep \/ ParamStep \/ BlockStep \/ PrepStep)
           /\ hist' = HistNext
 
 MCSpec == MCInit /\ [][MCNext]_pvars
